@@ -273,6 +273,33 @@ def keyed_table_size(rep, lua, mods):
                                "%s applies `#` to its %s parameter `%s`: for a keyed table that is a border of the integer keys, not the "
                                "number of entries (`set.from_list [1, 2, 3]`, `set.remove(s, 2)`, `set.len(s)` answers 1 or 3, never 2)"
                                % (name, pt[1].lower(), pname), "sylt-compiler/src/preamble.lua:%s" % (bad[0].get("line") if bad else f.get("line")))
+    # .. nor the metamethods of the dict / set metatables (their operands are such tables): `#a == #b` is `0 == 0` there
+    import c19
+    nm = 0
+    for (meta, name), f in sorted(c19.meta_functions(lua.ast).items()):
+        if not re.search(r"(SET|DICT)", meta):
+            continue
+        for pname in f["params"]:
+            nm += 1
+            bad = [x for x in luaparse.walk(f["body"]) if x.get("k") == "Unop" and x.get("op") == "#"
+                   and x["e"].get("k") == "Name" and x["e"]["name"] == pname]
+            rep.ob("KEYED-SIZE", "%s.%s|%s" % (meta, name, pname), not bad,
+                   "%s.%s never applies the length operator to its operand `%s`" % (meta, name, pname) if not bad else
+                   "%s.%s applies `#` to `%s`, a table keyed by arbitrary values: the length is 0 (or a border), so a size comparison "
+                   "built on it holds for any two sets - `{1} == {1, 2}` when only one containment loop remains" % (meta, name, pname),
+                   "sylt-compiler/src/preamble.lua:%s" % (bad[0].get("line") if bad else f.get("line")))
+    # equality of keyed tables is mutual containment: one loop over each operand's entries
+    for (meta, name), f in sorted(c19.meta_functions(lua.ast).items()):
+        if name != "__eq" or not re.search(r"(SET|DICT)", meta) or len(f["params"]) != 2:
+            continue
+        a_, b_ = f["params"]
+        over = [luaparse.show(l["es"][0]) for l in luaparse.walk(f["body"]) if l.get("k") == "ForIn" and l.get("es")]
+        both = ("pairs(%s)" % a_) in over and ("pairs(%s)" % b_) in over
+        rep.ob("KEYED-EQ", "%s.__eq|both-directions" % meta, both,
+               "%s.__eq walks the entries of both operands (%s)" % (meta, over) if both else
+               "%s.__eq walks %s only: equality degrades to `is a subset of` - {1} == {1, 2}, and == is no longer symmetric" % (meta, over or "nothing"),
+               "sylt-compiler/src/preamble.lua:%s" % f.get("line"))
+    rep.floor("KEYED-SIZE", "operands of dict / set metamethods", nm, 6)
     rep.floor("KEYED-SIZE", "dict / set parameters of externals", n, 12)
 
 
